@@ -366,3 +366,31 @@ class C08(ZooProp):
     assumptions = ("assertions enabled (no -DNDEBUG), ASan + UBSan; a faulted element-count that would request more than 2^20 cells is excluded and counted",)
     level_text = ("Complete enumeration of truncation points and of structural-word positions per generated dump, all ordered stack pairs, every failing "
                   "read index; differential against an independent reference parser of the format.")
+
+
+@prop("C07")
+class C07(ZooProp):
+    pid = "C07"
+    mode = "C07"
+    rule = ("cases = (pair of stack types that differ only in the interpolation method and/or float<->double storage [stacks containing the "
+            "out-of-range-default layer are excluded: its on-disk default follows the storage scalar], configurations as arbitrary bit patterns, "
+            "stored finite values within single-precision range biased to 2^24+1, odd multiples above 2^24, 1+2^-30, multiples of 0.1, "
+            "single-precision subnormals, values that underflow, values near FLT_MAX). Oracle: the file of type 1 loads into type 2; every other "
+            "configuration word unchanged; widening exact (value and sign), narrowing = a nearest single-precision value with ties to even (checked "
+            "against both neighbours in long double); the re-dump parses under the reference grammar and carries the converted payload; loading "
+            "back is exact. Golden files (golden/*.json, one per serialisable layer kind, five of them verified byte-identical to what the pinned "
+            "revision writes): load, recorded configurations and storage, byte-identical re-dump, grammatical. non-trivial = pair differs in width "
+            "and a value needs rounding (or widening / interpolator-only pair); distinct by dump bytes")
+    min_eval = 2000
+    level_text = ("Generated pairs of compatible field types with rounding-directed stored values against an exact rounding oracle and the independent "
+                  "format parser, plus a committed golden corpus pinning the byte layout across revisions.")
+
+    def stacks_extras(self, seed):
+        return zoo.c07_pairs(seed)
+
+    def harnesses(self, tier, seed=1):
+        st, ex = self.stacks_extras(seed)
+        return [zoo.ZooH("zoo_C07", st, "C07", shards=16, extras=ex, env={"VERIF_GOLDEN": zoo.GOLDEN})]
+
+    def stacks(self, tier, seed):
+        return self.stacks_extras(seed)[0]
